@@ -281,6 +281,10 @@ func genPlan(r *Rng, focus string) *runPlan {
 		nreq := 1 + r.Intn(4)
 		for q := 0; q < nreq; q++ {
 			rp := &reqPlan{ID: id, Caller: cl, DelayUs: r.Intn(1500), CtxLabel: id + 1, CancelUs: -1}
+			if c.TimeoutMs > 0 && c.TimeoutMs <= 30 && r.Chance(6) {
+				// an idle gap longer than the flush timeout: the shard's timer fires (possibly on an empty buffer) before the next request
+				rp.DelayUs = c.TimeoutMs * 2500
+			}
 			if shareCtx {
 				rp.CtxLabel = 1000
 			} else if r.Chance(20) {
